@@ -18,6 +18,11 @@ import (
 
 // XZCfg mirrors xz.WriterConfig.
 type XZCfg struct {
+	// ViaVerify: the caller starts from nil Properties, calls Verify() (which
+	// fills the defaults into the config in place) and then sets LC/LP/PB
+	// through the pointer it finds there - same effective configuration as
+	// passing Properties, different use of the API
+	ViaVerify  bool `json:",omitempty"`
 	LC, LP, PB int
 	NoProps    bool  `json:",omitempty"` // leave Properties nil (library default)
 	DictCap    int   `json:",omitempty"`
@@ -31,7 +36,11 @@ type XZCfg struct {
 func (c XZCfg) lib() xz.WriterConfig {
 	w := xz.WriterConfig{DictCap: c.DictCap, BufSize: c.BufSize, BlockSize: c.BlockSize,
 		CheckSum: c.CheckSum, NoCheckSum: c.NoCheckSum, Matcher: lzma.MatchAlgorithm(c.Matcher)}
-	if !c.NoProps {
+	if !c.NoProps && c.ViaVerify {
+		if w.Verify() == nil && w.Properties != nil {
+			w.Properties.LC, w.Properties.LP, w.Properties.PB = c.LC, c.LP, c.PB
+		}
+	} else if !c.NoProps {
 		w.Properties = &lzma.Properties{LC: c.LC, LP: c.LP, PB: c.PB}
 	}
 	return w
@@ -66,6 +75,11 @@ func (c XZCfg) EffProps() (int, int, int) {
 
 // L2Cfg mirrors lzma.Writer2Config.
 type L2Cfg struct {
+	// ViaVerify: the caller starts from nil Properties, calls Verify() (which
+	// fills the defaults into the config in place) and then sets LC/LP/PB
+	// through the pointer it finds there - same effective configuration as
+	// passing Properties, different use of the API
+	ViaVerify  bool `json:",omitempty"`
 	LC, LP, PB int
 	NoProps    bool `json:",omitempty"`
 	DictCap    int  `json:",omitempty"`
@@ -75,7 +89,11 @@ type L2Cfg struct {
 
 func (c L2Cfg) lib() lzma.Writer2Config {
 	w := lzma.Writer2Config{DictCap: c.DictCap, BufSize: c.BufSize, Matcher: lzma.MatchAlgorithm(c.Matcher)}
-	if !c.NoProps {
+	if !c.NoProps && c.ViaVerify {
+		if w.Verify() == nil && w.Properties != nil {
+			w.Properties.LC, w.Properties.LP, w.Properties.PB = c.LC, c.LP, c.PB
+		}
+	} else if !c.NoProps {
 		w.Properties = &lzma.Properties{LC: c.LC, LP: c.LP, PB: c.PB}
 	}
 	return w
@@ -90,6 +108,7 @@ func (c L2Cfg) EffDictCap() int {
 
 // LZCfg mirrors lzma.WriterConfig.
 type LZCfg struct {
+	ViaVerify    bool `json:",omitempty"` // see XZCfg
 	LC, LP, PB   int
 	NoProps      bool  `json:",omitempty"`
 	DictCap      int   `json:",omitempty"`
@@ -103,7 +122,11 @@ type LZCfg struct {
 func (c LZCfg) lib() lzma.WriterConfig {
 	w := lzma.WriterConfig{DictCap: c.DictCap, BufSize: c.BufSize, Matcher: lzma.MatchAlgorithm(c.Matcher),
 		SizeInHeader: c.SizeInHeader, Size: c.Size, EOSMarker: c.EOSMarker}
-	if !c.NoProps {
+	if !c.NoProps && c.ViaVerify {
+		if w.Verify() == nil && w.Properties != nil {
+			w.Properties.LC, w.Properties.LP, w.Properties.PB = c.LC, c.LP, c.PB
+		}
+	} else if !c.NoProps {
 		w.Properties = &lzma.Properties{LC: c.LC, LP: c.LP, PB: c.PB}
 	}
 	return w
@@ -207,6 +230,7 @@ func genMatcher(r *sim.Rng) byte {
 func GenXZCfg(r *sim.Rng, big bool) XZCfg {
 	var c XZCfg
 	c.LC, c.LP, c.PB, c.NoProps = genProps(r, true)
+	c.ViaVerify = !c.NoProps && r.Chance(1, 8)
 	c.BufSize = genBufSize(r)
 	c.DictCap = genDictCap(r, c.BufSize, big)
 	c.Matcher = genMatcher(r)
@@ -234,6 +258,7 @@ func GenXZCfg(r *sim.Rng, big bool) XZCfg {
 func GenL2Cfg(r *sim.Rng, big bool) L2Cfg {
 	var c L2Cfg
 	c.LC, c.LP, c.PB, c.NoProps = genProps(r, true)
+	c.ViaVerify = !c.NoProps && r.Chance(1, 8)
 	c.BufSize = genBufSize(r)
 	c.DictCap = genDictCap(r, c.BufSize, big)
 	c.Matcher = genMatcher(r)
@@ -245,6 +270,7 @@ func GenL2Cfg(r *sim.Rng, big bool) L2Cfg {
 func GenLZCfg(r *sim.Rng, n int, big bool, interop bool) LZCfg {
 	var c LZCfg
 	c.LC, c.LP, c.PB, c.NoProps = genProps(r, interop)
+	c.ViaVerify = !c.NoProps && r.Chance(1, 8)
 	c.BufSize = genBufSize(r)
 	c.DictCap = genDictCap(r, c.BufSize, big)
 	c.Matcher = genMatcher(r)
@@ -361,6 +387,35 @@ func btLongPayload(r *sim.Rng, want int) sim.Payload {
 		{Kind: "text", N: r.Range(0, 3000), Seed: r.Uint64()},
 		{Kind: "prng", N: n / 2, Seed: r.Uint64()},
 	}}
+}
+
+// mixedChunkPayload yields the chunk history compressed -> stored (one or
+// more) -> compressed inside one block without any Flush: compressible data,
+// an incompressible stretch covering more than two whole LZMA2 chunks (a chunk
+// holds at most the dictionary capacity below 64 KiB), compressible data
+// again - the coder state, rep distances included, has to survive the stored
+// chunks on both sides.
+func mixedChunkPayload(r *sim.Rng, dictCap int) sim.Payload {
+	seg := dictCap
+	if seg == 0 || seg > 1<<16 {
+		seg = 1 << 16
+	}
+	comp := func(n int) sim.Payload {
+		switch r.Intn(4) {
+		case 0:
+			return sim.Payload{Kind: "text", N: n, Seed: r.Uint64()}
+		case 1:
+			return sim.Payload{Kind: "period", N: n, Seed: r.Uint64(), A: r.Range(2, 40)}
+		case 2:
+			return sim.Payload{Kind: "alpha", N: n, Seed: r.Uint64(), A: r.Range(2, 4)}
+		}
+		return sim.Payload{Kind: "pmis", N: n, Seed: r.Uint64(), A: r.Range(3, 60)}
+	}
+	parts := []sim.Payload{comp(r.Range(200, seg+2000))}
+	for i, k := 0, r.Range(1, 2); i < k; i++ {
+		parts = append(parts, sim.Payload{Kind: "prng", N: r.Range(2*seg+100, 3*seg+500), Seed: r.Uint64()}, comp(r.Range(100, 3000)))
+	}
+	return sim.Payload{Kind: "concat", Parts: parts}
 }
 
 // ---- guarded calls into the library ----
